@@ -114,6 +114,7 @@ impl Property for C07 {
             _ => vec![4096],
         };
         let mut find = FindScenario::new(spec, vec![]);
+        find.gen_extras(rng, true);
         find.sink_plan = sink_plan;
         let mut sc = Sc {
             find,
